@@ -47,6 +47,8 @@ ACTIVITIES = {
     # a writer that never has to wait is only killed between two write calls, i.e. between frames)
     # thousands of small items that nobody reads pile up in the worker while its execution is busy elsewhere
     "unread_backlog": "import time\nchannel.send('started')\ntime.sleep(100000)\n",
+    # two executions sending at once into a pipe the initiator has stopped reading (its receiver is stuck in a callback)
+    "two_senders_full_pipe": "channel.send('started')\nwhile True:\n    channel.send(b'x' * 200000)\n",
     "inbound_flood": "import time\nchannel.setcallback(lambda item: time.sleep(0.02))\nchannel.send('started')\ntime.sleep(100000)\n",
     # killed (by the initiator, below) while a helper process it started still holds its output pipe: whoever relays
     # for this worker sees no end of stream
@@ -136,6 +138,13 @@ def main():
                     chans.append(gws[g["id"]].remote_exec("channel.send(1)"))
                 except Exception as e:  # noqa
                     emit(event="note", msg=f"remote_exec on exhausted worker: {e!r}")
+            if act == "two_senders_full_pipe":
+                import threading
+
+                # (items already queued are handed over in this thread: only the receiver thread is to get stuck)
+                ch.setcallback(lambda item: time.sleep(100000) if threading.current_thread() is not threading.main_thread() else None)
+                chans.append(gws[g["id"]].remote_exec("while True:\n    channel.send(b'y' * 200000)\n"))
+                time.sleep(0.5)
             if act == "unread_backlog":
                 for i in range(6000):
                     ch.send(i)
